@@ -174,8 +174,15 @@ def finish(report, tier, t0, level='other', explanation='', extra=None, exhausti
 
     violations = []
     known_hits = []
+    undecided_proof = []
     for o in allobs:
-        bad = o.status == 'viol' or (o.status == 'undecided' and o.kind == 'proof')
+        # Only a positively established contradiction is an alarm.  An obligation the engines could not decide (idiom outside the
+        # recognised family, closed form not extracted) is reported as NOT-DECIDED and recorded in the evidence, but it is not a
+        # violation: behaviour-preserving rewrites must not raise an alarm.  Anchors that disappear altogether still fail the
+        # coverage floor below (undecided instances count towards the floor: the anchor was found).
+        bad = o.status == 'viol'
+        if o.status == 'undecided' and o.kind == 'proof':
+            undecided_proof.append(o)
         if not bad:
             continue
         k = (prop, o.key)
@@ -195,7 +202,9 @@ def finish(report, tier, t0, level='other', explanation='', extra=None, exhausti
                        'replay': './check %s --explain %s' % (prop, json.dumps(o.key))}, f, indent=1)
         lines.append('VIOLATION property=%s replay=%s' % (prop, rp))
         lines.append('  rule=%s key=%s site=%s' % (o.rule, o.key, o.site))
-        lines.append('  %s: %s' % ('undecided proof obligation (fails closed)' if o.status == 'undecided' else 'violated', o.detail))
+        lines.append('  violated: %s' % o.detail)
+    for o in undecided_proof[:20]:
+        lines.append('NOT-DECIDED property=%s rule=%s key=%s: %s' % (prop, o.rule, o.key, (o.detail or '')[:160]))
 
     n_obl = sum(d['obligations'] for d in per_rule.values())
     n_dis = sum(d['discharged'] for d in per_rule.values())
@@ -215,6 +224,7 @@ def finish(report, tier, t0, level='other', explanation='', extra=None, exhausti
         'checker_cmd': './check %s --tier %s' % (prop, tier),
         'trusted_base': ['rustc nightly MIR (-Zmir-opt-level=0) as dumped by driver/', 'cva std-callee summaries'] + report.trusted,
         'known_findings_matched': [o.key for o, _ in known_hits],
+        'undecided_proof_obligations': [{'rule': o.rule, 'key': o.key, 'why': (o.detail or '')[:200]} for o in undecided_proof][:80],
         'undecided_refutation_obligations': [o.key for o in report.obs if o.status == 'undecided' and o.kind == 'refute'][:50],
         'analysed_configuration': 'default-feature library target only (cfg(test), benches, examples and the blas/lapack features are not compiled and not part of any verdict)',
         'exhaustive': bool(exhaustive),
